@@ -101,6 +101,9 @@ int iwitoa(int64_t v, char *buf, int max) {
 }
   int ret = 0;
   char c, *ptr = buf, *p, *p1;
+  if (max < 1) {
+    return 0;
+  }
   if (!v) {
     ITOA_SZSTEP(1);
     *ptr++ = '0';
@@ -121,6 +124,10 @@ int iwitoa(int64_t v, char *buf, int max) {
   p = ptr;
   while (v) {
     if (++ret >= max) { //overflow condition
+      if (p == ptr) {   // no room even for a single digit
+        v /= 10;
+        continue;
+      }
       memmove(ptr, ptr + 1, p - ptr);
       p--;
     }
